@@ -188,11 +188,9 @@ void *
 Tokenizer_fail_route(Tokenizer *self)
 {
     uint64_t context = self->topstack->context;
-    PyObject *stack;
 
     Tokenizer_memoize_bad_route(self);
-    stack = Tokenizer_pop(self);
-    Py_XDECREF(stack);
+    Tokenizer_delete_top_of_stack(self);
     FAIL_ROUTE(context);
     return NULL;
 }
